@@ -1030,6 +1030,9 @@ class _AsyncConnectionWrapper:
                 self.q_expected_select.append((ts_step, num_msgs))
                 self.push_selection()
 
+                # Flush any further step whose messages are already determined (see push_ts_max).
+                self.push_expected_nonblocking()
+
     def push_expected_blocking(self):
         assert self.connection.blocking, "This function should only be called for blocking inputs."
         has_ts_next_step = len(self.q_ts_next_step) > 0
@@ -1100,6 +1103,11 @@ class _AsyncConnectionWrapper:
 
             # Push push_phase_shift (must be called from node thread)
             self.input_node._submit(self.input_node.push_phase_shift)
+
+            # Flush any further entry that is already complete. Entries that became complete while they were queued behind
+            # this one (e.g. steps expecting zero messages) would otherwise wait for another event on this connection,
+            # which never comes when the sender itself waits for this node (stalls cyclic graphs).
+            self.push_ts_max()
 
     def push_ts_input(self, msg, header: base.Header):
         # WALL_CLOCK: called by input.push_input --> msg: actual message
@@ -1254,6 +1262,9 @@ class _AsyncConnectionWrapper:
 
                 # Push step (must be called from node thread)
                 self.input_node._submit(self.input_node.push_step)
+
+                # Flush any further selection that is already complete (see push_ts_max).
+                self.push_selection()
 
 
 def update_input_state(input_state: base.InputState, seq: int, ts_sent: float, ts_recv: float, data: Any) -> base.InputState:
